@@ -242,4 +242,215 @@ theorem chainGrow_zero (fuel : Nat) : ∀ {p p' : P} {ids ids' : List Nat} {targ
       · cases h
       · cases h
 
+/-- where the pair for slot `s` sits in the start table -/
+theorem startIn_mem_of_ne {starts : List (Nat × Nat)} {s : Nat} (h : startIn starts s ≠ END) :
+    (s, startIn starts s) ∈ starts := by
+  unfold startIn at h ⊢
+  cases hf : starts.find? (·.1 == s) with
+  | none => rw [hf] at h; exact absurd rfl h
+  | some e =>
+    simp only [hf, Option.map_some, Option.getD_some]
+    have hm := List.mem_of_find?_eq_some hf
+    have hk := List.find?_some hf
+    simp only [beq_iff_eq] at hk
+    obtain ⟨a, b⟩ := e
+    simp only at hk
+    subst hk
+    exact hm
+
+/-- `Chain::set_len` to at least the present number of sectors, on a tracked non-empty chain -/
+theorem chainSetLen_grow_zero {p p' : P} {ids ids' : List Nat} {n : Nat} (hn : 0 < n)
+    (h : chainSetLen p ids .zero n = .ok (p', ids')) (hb : p'.fat.size ≤ MAXREG + 1) (inv : Inv p)
+    (X : List Nat) (nc : NC p.fat (hdl ids ++ X)) (tr : Tr p.fat ids) (hne : ids ≠ [])
+    (hle : ids.length ≤ (p.S + n - 1) / p.S) :
+    ∃ news, ids' = ids ++ news ∧ p'.v4 = p.v4 ∧ ids'.length = (p.S + n - 1) / p.S ∧
+      (∀ x ∈ news, p'.sectors[x]? = some (zeroSector p.S)) ∧
+      (∀ x ∈ ids, p'.sectors[x]? = p.sectors[x]?) ∧
+      (∀ hh ∈ X, ∀ l, IsChain p.fat hh l → ∀ x ∈ l, p'.sectors[x]? = p.sectors[x]?) ∧
+      Tr p'.fat ids' ∧ NC p'.fat (hdl ids' ++ X) := by
+  have v := chainSetLen_v hn h hb inv X nc tr
+  obtain ⟨l', trl, _, hl, heq⟩ := v.2.1
+  have e := heq hle
+  subst e
+  have kc := (kc_chainSetLen hn h).1
+  have nc' := kc.keep hb inv X nc
+  unfold chainSetLen at h
+  dsimp only at h
+  have hpos : (p.S + n - 1) / p.S ≠ 0 := by
+    intro he
+    have hl0 : ids.length = 0 := by omega
+    exact hne (List.length_eq_zero_iff.mp hl0)
+  rw [if_neg hpos] at h
+  split at h
+  · rename_i hle2
+    have heqlen : (p.S + n - 1) / p.S = ids.length := by omega
+    rw [if_neg (by omega)] at h
+    cases h
+    exact ⟨[], by simp, rfl, by omega, (fun _ hx => by cases hx), (fun _ _ => rfl), (fun _ _ _ _ _ _ => rfl), trl, nc'⟩
+  · obtain ⟨news, e, v4, hz, hk, hx⟩ := chainGrow_zero _ h hb inv X nc tr
+    exact ⟨news, e, v4, hl, hz, hk, hx, trl, nc'⟩
+
+/-- **growing a stream of at least 4096 bytes: every byte gained reads as zero, every byte it had is
+kept** — at the level of sector contents: `resize` (the regular-to-regular case of `resize_stream`:
+`Chain::set_len`, then `zero_old_tail`) on a tracked chain whose length matches the old size -/
+theorem resize_regular_grow_zero {p p' : P} {slot oldLen newLen : Nat} {ids : List Nat} (inv : Inv p) (ss : SS p)
+    (hstart : startOf p slot ≠ END) (hold : CUTOFF ≤ oldLen) (hgrow : oldLen ≤ newLen)
+    (hids : chainIds p (startOf p slot) = .ok ids) (X : List Nat) (nc : NC p.fat (hdl ids ++ X)) (tr : Tr p.fat ids)
+    (hlen : ids.length = (oldLen + p.S - 1) / p.S) (hpres : Present p ids)
+    (h : resize p slot oldLen newLen = .ok p') (hb : p'.fat.size ≤ MAXREG + 1) :
+    ∃ ids', ids'.length = (p.S + newLen - 1) / p.S ∧ Tr p'.fat ids' ∧ hdl ids' = hdl ids ∧ p'.S = p.S ∧
+      (∀ j, oldLen ≤ j → j < newLen → byteAt p' ids' j = some 0) ∧
+      (∀ j, j < oldLen → byteAt p' ids' j = byteAt p ids j) := by
+  have hS := S_pos p
+  have hC : CUTOFF = 4096 := rfl
+  have hne : ids ≠ [] := by
+    intro e; rw [e] at hlen; simp at hlen
+    have := (Nat.div_eq_zero_iff).mp hlen.symm; omega
+  unfold resize at h
+  simp only [bind, pure] at h
+  rw [if_neg hstart, if_neg (by omega), if_neg (by omega), if_neg (by omega), hids] at h
+  simp only [Outcome.bind] at h
+  obtain ⟨⟨p1, ids1⟩, hsl, h⟩ := obind_ok h
+  simp only at h
+  -- bounds on p1
+  have hb1 : p1.fat.size ≤ MAXREG + 1 := by
+    split at h
+    · split at h
+      · cases h
+      · obtain ⟨⟨q, _⟩, hw, h⟩ := obind_ok h
+        cases h
+        exact Nat.le_trans (good_chainWrite _ _ hw).mono hb
+    · cases h; exact hb
+  have hle : ids.length ≤ (p.S + newLen - 1) / p.S := by
+    rw [hlen]
+    have : oldLen + p.S - 1 ≤ p.S + newLen - 1 := by omega
+    exact Nat.div_le_div_right this
+  obtain ⟨news, e, v4, hl1, hz, hk, _, tr1, nc1⟩ :=
+    chainSetLen_grow_zero (by omega) hsl hb1 inv X nc tr hne hle
+  have hS1 : p1.S = p.S := by unfold P.S; rw [v4]
+  have ss1 : SS p1 := (gs_chainSetLen hsl).ss ss
+  have hpres1 : Present p1 ids1 := by
+    intro x hx
+    rw [e] at hx
+    rcases List.mem_append.mp hx with hx | hx
+    · rw [hk x hx]; exact hpres x hx
+    · exact ⟨_, hz x hx⟩
+  -- the chain's bytes after `set_len`: old bytes, then zeros
+  have hb1at : ∀ j, (j < ids.length * p.S → byteAt p1 ids1 j = byteAt p ids j) ∧
+      (ids.length * p.S ≤ j → j < ids1.length * p.S → byteAt p1 ids1 j = some 0) := by
+    intro j
+    unfold byteAt
+    rw [hS1]
+    constructor
+    · intro hj
+      have hidx : j / p.S < ids.length := (Nat.div_lt_iff_lt_mul hS).mpr hj
+      rw [e, List.getElem?_append_left hidx, List.getElem?_eq_getElem hidx]
+      simp only [Option.bind_some]
+      unfold secList
+      rw [hk _ (List.getElem_mem hidx)]
+    · intro hj1 hj2
+      have hidx1 : j / p.S < ids1.length := (Nat.div_lt_iff_lt_mul hS).mpr hj2
+      have hidx0 : ids.length ≤ j / p.S := (Nat.le_div_iff_mul_le hS).mpr hj1
+      rw [List.getElem?_eq_getElem hidx1]
+      simp only [Option.bind_some]
+      have hmem : ids1[j / p.S] ∈ news := by
+        have : ids1[j / p.S] = (ids ++ news)[j / p.S]'(by rw [← e]; exact hidx1) := by congr 1
+        rw [this, List.getElem_append_right hidx0]
+        exact List.getElem_mem _
+      unfold secList
+      rw [hz _ hmem]
+      simp only [Option.map_some, Option.getD_some]
+      rw [zeroSector_toList]
+      unfold zeros
+      rw [List.getElem?_replicate, if_pos (Nat.mod_lt _ hS)]
+  have hhd : hdl ids1 = hdl ids := by rw [e]; exact hdl_append hne news
+  have hlenS : ids.length * p.S = (oldLen + p.S - 1) / p.S * p.S := by rw [hlen]
+  have hcover : oldLen ≤ ids.length * p.S := by
+    rw [hlenS]
+    have := Nat.div_add_mod (oldLen + p.S - 1) p.S
+    have hm := Nat.mod_lt (oldLen + p.S - 1) hS
+    have : (oldLen + p.S - 1) / p.S * p.S = p.S * ((oldLen + p.S - 1) / p.S) := Nat.mul_comm _ _
+    omega
+  have hcover1 : newLen ≤ ids1.length * p.S := by
+    rw [hl1]
+    have := Nat.div_add_mod (p.S + newLen - 1) p.S
+    have hm := Nat.mod_lt (p.S + newLen - 1) hS
+    have : (p.S + newLen - 1) / p.S * p.S = p.S * ((p.S + newLen - 1) / p.S) := Nat.mul_comm _ _
+    omega
+  have hbelow : ids.length * p.S < oldLen + p.S := by
+    rw [hlenS]
+    have := Nat.div_mul_le_self (oldLen + p.S - 1) p.S
+    omega
+  split at h
+  · -- `zero_old_tail`: the rest of the old last sector
+    rename_i at_ nz hz0
+    unfold zeroTailRange at hz0
+    split at hz0
+    · rename_i hcond
+      simp only [Option.some.injEq, Prod.mk.injEq] at hz0
+      obtain ⟨rfl, rfl⟩ := hz0
+      rw [hS1] at h
+      rw [if_neg (by have := hcover1; omega)] at h
+      obtain ⟨⟨q, idsq⟩, hw, h⟩ := obind_ok h
+      cases h
+      generalize hstop : min newLen ((oldLen + p.S - 1) / p.S * p.S) = stop at hw
+      have hstop1 : oldLen ≤ stop := by rw [← hstop, ← hlenS]; omega
+      have hnd : ids1.Nodup := by
+        cases hi1 : ids1 with
+        | nil => exact List.nodup_nil
+        | cons hd t =>
+          have c := tr1 hd (by rw [hi1]; simp [hdl])
+          exact (hi1 ▸ c).nodup nc1.ns (by rw [hi1]; simp [hdl])
+      have hfit : oldLen + (List.replicate (stop - oldLen) (0 : UInt8)).length ≤ ids1.length * p1.S := by
+        rw [List.length_replicate, hS1]
+        have : stop ≤ newLen := by rw [← hstop]; exact Nat.min_le_left _ _
+        omega
+      obtain ⟨q', hw', hsame, ssq, _, _, hpt⟩ :=
+        chainWrite_spec .zero ((stop - oldLen) + 2) p1 ids1 oldLen (List.replicate (stop - oldLen) 0) ss1 hpres1 hnd hfit
+          (by rw [List.length_replicate]; omega)
+      rw [hw'] at hw
+      cases hw
+      have hSq : q.S = p.S := by rw [sameButSectors_S hsame, hS1]
+      have hfatq : q.fat = p1.fat := by unfold SameButSectors at hsame; rw [hsame]
+      refine ⟨ids1, hl1, by rw [hfatq]; exact tr1, hhd, hSq, ?_, ?_⟩
+      · intro j h1 h2
+        rw [hpt j, List.length_replicate]
+        by_cases hin : oldLen ≤ j ∧ j < oldLen + (stop - oldLen)
+        · rw [if_pos hin, List.getElem?_replicate, if_pos (by omega)]
+        · rw [if_neg hin]
+          have hjs : stop ≤ j := by omega
+          have hstopeq : stop = ids.length * p.S := by
+            rw [← hstop, ← hlenS]
+            exact Nat.min_eq_right (by omega)
+          exact (hb1at j).2 (by omega) (by omega)
+      · intro j hj
+        rw [hpt j, List.length_replicate, if_neg (by omega)]
+        exact (hb1at j).1 (by omega)
+    · cases hz0
+  · -- the old length was a whole number of sectors: nothing to clear
+    rename_i hz0
+    unfold zeroTailRange at hz0
+    have hal : ¬ (newLen > oldLen ∧ oldLen % p1.S ≠ 0) := by
+      intro hc; rw [if_pos hc] at hz0; cases hz0
+    rw [hS1] at hal
+    cases h
+    refine ⟨ids1, hl1, tr1, hhd, hS1, ?_, ?_⟩
+    · intro j h1 h2
+      have hmod : oldLen % p.S = 0 := by
+        by_cases hm : oldLen % p.S = 0
+        · exact hm
+        · exact absurd ⟨by omega, hm⟩ hal
+      have hexact : ids.length * p.S = oldLen := by
+        rw [hlenS]
+        have := Nat.div_add_mod oldLen p.S
+        have h2' : (oldLen + p.S - 1) / p.S = oldLen / p.S := by
+          have hd : oldLen = p.S * (oldLen / p.S) := by omega
+          have : oldLen + p.S - 1 = (p.S - 1) + p.S * (oldLen / p.S) := by omega
+          rw [this, Nat.add_mul_div_left _ _ hS, Nat.div_eq_of_lt (by omega)]
+          omega
+        rw [h2', Nat.mul_comm]; omega
+      exact (hb1at j).2 (by omega) (by omega)
+    · intro j hj
+      exact (hb1at j).1 (by omega)
+
 end CfbVerif.Phys
